@@ -387,7 +387,7 @@ func c13ScenarioYAML(grpc bool, e map[string]string) string {
 	for _, rq := range strings.Split(get("requests", "auth_req(1)|sleep(100)|list_req(2)"), "|") {
 		b.WriteString("      - " + rq + "\n")
 	}
-	b.WriteString("  - name: s2\n    requests:\n      - list_req(1)\n")
+	b.WriteString("  - name: " + get("s2_name", "s2") + "\n    requests:\n      - list_req(1)\n")
 	return b.String()
 }
 
@@ -463,6 +463,9 @@ var c13ScDefects = []scDefect{
 	{"mapping-bad-index", map[string]string{"mapping": "source.users[abc].user_id"}, nil, false},
 	{"mapping-unclosed-index", map[string]string{"mapping": "source.users[next.user_id"}, nil, false},
 	{"mapping-empty", map[string]string{"mapping": "\"\""}, nil, false},
+	// two scenarios with one name (a copied block whose name was never changed; YAML descriptions)
+	{"duplicate-scenario-names", map[string]string{"s2_name": "s1"}, nil, false},
+	{"duplicate-scenario-names-and-weights", map[string]string{"s2_name": "s1", "weight": "1"}, nil, false},
 	// XPath expressions that are valid but do not select nodes (http/scenario in YAML only)
 	{"xpath-returns-a-number", map[string]string{"extra_post": "var/xpath|cnt|count(//a)"}, nil, false},
 	{"xpath-returns-a-string", map[string]string{"extra_post": "var/xpath|cnt|string(//title)"}, nil, false},
